@@ -12,6 +12,9 @@ def ops10 (op : String) (a : List String) : Option String :=
       let c0 : FCfg := ⟨parseIdList excl, parseIdList known, e, none⟩
       let c := if active = "None" then c0 else setActiveHgi c0 active.toList
       "ok\t" ++ showBool (isWanted c src.toList dst.toList sd)
+  | "filter.active", [excl, known, enforce, reported] => (parseBool enforce).map fun e =>
+      let c := connectionMade ⟨parseIdList excl, parseIdList known, e, none⟩ (if reported = "None" then none else some reported.toList)
+      "ok\t" ++ (match c.active with | none => "None" | some a => String.ofList a)
   | "filter.mode", [enforce, known] => (parseBool enforce).map fun e => "ok\t" ++ showBool (selectFilterMode e (parseIdList known))
   | "filter.create", [excl, known, enforce, unwanted, hgi, gd, id] => (parseBool enforce).map fun e =>
       "ok\t" ++ showBool (canCreateDevice ⟨parseIdList excl, parseIdList known, e, none⟩ (parseIdList unwanted) hgi.toList
